@@ -98,7 +98,7 @@ class TraceExecutor(Executor):
             self._handle_pending_epr_responses()
 
     def _handle_command_exception(self, exc, prog_counter, traceback_str):
-        if isinstance(exc, (StepBound, WouldBlock)):
+        if isinstance(exc, (StepBound, WouldBlock)) or exc.__class__.__name__ == "Failure":
             raise exc
         super()._handle_command_exception(exc, prog_counter, traceback_str)
 
